@@ -271,6 +271,9 @@ class P:
             if len(es) == 1 and not trailing:
                 return ("paren", es[0])
             return ("tuple", es)
+        if v == "move" and self.peek(1) in ("|", "||"):
+            self.next()                # `move |…| …`: capture mode does not change what the closure computes
+            v = self.peek()
         if v == "|" or v == "||":
             params = []
             if v == "||":
@@ -981,10 +984,35 @@ def parse_file(src, module):
             name = p.next()
             owner = impl_stack[-1] if impl_stack else None
             key = (owner + "::" + name + impl_suffix[-1]) if owner else (q + name)
+            generics = {}
             if p.at("<"):
-                skip_item_block()
-                res["fns"][key] = {"error": "generic function"}
-                continue
+                # one shape only: `<P: FnMut(T, …) -> R>` (a closure parameter)
+                ok_ = (p.kind(1) == "id" and p.peek(2) == ":" and p.peek(3) == "FnMut" and p.peek(4) == "(")
+                if ok_:
+                    sv_ = p.i
+                    try:
+                        p.next()
+                        gname = p.next()
+                        p.eat(":")
+                        p.next()
+                        p.eat("(")
+                        gargs = []
+                        while not p.at(")"):
+                            gargs.append(p.ty())
+                            if p.at(","):
+                                p.eat(",")
+                        p.eat(")")
+                        p.eat("->")
+                        gret = p.ty()
+                        p.eat(">")
+                        generics[gname] = ("fnmut", gargs, gret)
+                    except Unsupported:
+                        p.i = sv_
+                        ok_ = False
+                if not ok_:
+                    skip_item_block()
+                    res["fns"][key] = {"error": "generic function"}
+                    continue
             save = p.i
             try:
                 p.eat("(")
@@ -1027,6 +1055,8 @@ def parse_file(src, module):
                 body = bp.block()
                 res["fns"][key] = {"params": params, "ret": ret, "body": body, "self": selfp, "owner": owner,
                                    "module": module}
+                if generics:
+                    res["fns"][key]["generics"] = generics
             except Unsupported as ex:
                 res["fns"][key] = {"error": str(ex)}
                 p.i = save
